@@ -32,7 +32,8 @@ def r_once_forgotten(ctx: Ctx, rule: str) -> None:
     for f in ctx.pool_funcs("flush"):
         g = ctx.an.cfg(f)
         for fld in ("_tasks_ended", "_tasks_cancelled"):
-            rem = ctx.nodes(f, lambda n: any(e.kind in ("remove", "clear", "assign") and e.path == "self." + fld for e in ctx.eff.of_node(n)))
+            # a removal performed here, or by a coroutine flush awaits on its behalf
+            rem = ctx.nodes(f, lambda n: any(e.kind in ("remove", "clear", "assign") and e.path == "self." + fld for e in ctx.trans_effects(n)))
             if not rem:
                 rep.ob(rule, f"flush forgets the finished tasks of {fld}", False, func=f, construct=f"(no removal from {fld})")
                 continue
